@@ -11,6 +11,8 @@ from vlib import *
 
 
 TIME_VIEW = False     # also offer every trace to the timing view model/M5time.v (joint theorems of props/C03cmd.v)
+CMD_VIEW = False      # also offer every trace (recorded WITH the command <-> drain linkage events) to model/M5cmd.v (props/C03link.v)
+LAST_CMD_REJECTS = []
 LAST_TIME_REJECTS = []
 
 
@@ -21,10 +23,12 @@ LAST_TRUNC_BAD = []
 def eval_traces(work, outs, corr_mod, check_fn, tag):
     """Per trace: (accepted?, first rejected index or None, [(idx, code, who, known)]).  With TIME_VIEW the trace must also be
     accepted by M5time (the first rejection of either view is reported; M5time's are listed in LAST_TIME_REJECTS)."""
-    imports = "From KP Require Import model.Base model.Trace model.M5full corr.%s.\nFrom KP Require model.M5time." % corr_mod
+    imports = "From KP Require Import model.Base model.Trace model.M5full corr.%s.\nFrom KP Require model.M5time model.M5cmd." % corr_mod
 
     def ev(i):
-        tv = "first_reject M5time.step M5time.init tr 0" if TIME_VIEW else "(None : option nat)"
+        tv = "first_reject M5time.step M5time.init (unlinked tr) 0" if TIME_VIEW else "(None : option nat)"
+        if CMD_VIEW:
+            tv = "(%s, first_reject M5cmd.step M5cmd.init tr 0)" % tv
         trunc = [m5.rid(r["id"]) for r in outs[i]["results"] if r.get("op") == "request" and r.get("truncated") and not r.get("client_gone")]
         tb = ("(%s tr (%s : list nat))" % (TRUNC_FN, list_lit(["%d" % x for x in trunc]))) if TRUNC_FN else "([] : list nat)"
         body = ("Definition tr := %s.\nDefinition R := Eval vm_compute in (first_reject step init tr 0, %s, %s, %s tr).\n"
@@ -34,6 +38,13 @@ def eval_traces(work, outs, corr_mod, check_fn, tag):
     with ThreadPoolExecutor(max_workers=16) as ex:
         for i, txt in ex.map(ev, range(len(outs))):
             t = txt.strip()
+            rej_c = None
+            if CMD_VIEW:
+                mc = re.fullmatch(r"\((None|Some (?:\d+)(?:%nat)?), \((None|Some (?:\d+)(?:%nat)?), (None|Some (\d+)(?:%nat)?)\), (.*)\)", t, re.S)
+                if not mc:
+                    raise RuntimeError("unexpected result term: " + t[:300])
+                rej_c = None if mc.group(3) == "None" else int(mc.group(4))
+                t = "(%s, %s, %s)" % (mc.group(1), mc.group(2), mc.group(5))
             m = re.fullmatch(r"\((None|Some (\d+)(?:%nat)?), (None|Some (\d+)(?:%nat)?), (\[[\d;\s%nat]*\]|nil), (\[.*\]|nil)\)", t, re.S)
             if not m:
                 raise RuntimeError("unexpected result term: " + t[:300])
@@ -42,6 +53,9 @@ def eval_traces(work, outs, corr_mod, check_fn, tag):
             if rej is None and rej_t is not None:
                 rej = rej_t
                 LAST_TIME_REJECTS.append((tag, i, rej))
+            if rej is None and rej_c is not None:
+                rej = rej_c
+                LAST_CMD_REJECTS.append((tag, i, rej))
             fails = []
             for x in re.findall(r"\d+", m.group(5)):
                 LAST_TRUNC_BAD.append((tag, i, int(x)))
@@ -77,7 +91,7 @@ def run_property(prop, tier, seed, prop_file, corr_mod, check_fn, profiles, n_qu
     work = Work(prop)
     try:
         prop_files = prop_file if isinstance(prop_file, list) else [prop_file]
-        ok, blog = coq_build(["props/%s.vo" % f[:-2] for f in prop_files] + ["corr/%s.vo" % corr_mod, "model/M5full.vo", "model/M5time.vo"])
+        ok, blog = coq_build(["props/%s.vo" % f[:-2] for f in prop_files] + ["corr/%s.vo" % corr_mod, "model/M5full.vo", "model/M5time.vo", "model/M5cmd.vo"])
         proofs_ok, pa = True, ""
         ob = {"obligations": 0, "discharged": 0, "theorems": []}
         for pf in prop_files:
@@ -193,6 +207,8 @@ def run_property(prop, tier, seed, prop_file, corr_mod, check_fn, profiles, n_qu
             pl = {"property": prop, "seed": seed, "tier": tier,
                   "what": (("a trace of the real code is not accepted by the timing view model/M5time.v (joint theorems props/C03cmd.v)"
                             if (rejected and any(t[1] == rejected[0] and t[0] == prop for t in LAST_TIME_REJECTS)) else
+                            "a trace of the real code is not accepted by the command/drain linkage view model/M5cmd.v (theorems props/C03link.v)"
+                            if (rejected and any(t[1] == rejected[0] and t[0] == prop for t in LAST_CMD_REJECTS)) else
                             "a trace of the real code is not accepted by model/M5full.v (run step init)") if rejected else
                            "harness does not build/run against the tree" if not harness_ok else
                            "proof obligations of props/%s do not check" % prop_file)}
